@@ -451,7 +451,7 @@ func (c *SpecCtx) evalIdx(x *EIdx) *V {
 		et := a.Typ.Underlying().(*types.Slice).Elem()
 		i := c.eval(x.I).T
 		return u.loadLeaves(c.st, et, func(l Leaf) T {
-			return sel(sel(u.heapGet(c.st, "E:"+typeKey(et)+l.Path, arrSort(SInt, arrSort(SInt, l.Sort))), a.Sl.Arr), app(SInt, "+", a.Sl.Off, i))
+			return sel(sel(u.heapGet(c.st, "E:"+typeKey(et)+l.Path, arrSort(SInt, arrSort(SInt, l.Sort))), a.Sl.Arr), u.sidx(a.Sl.Off, i))
 		})
 	}
 	switch t := a.Typ.Underlying().(type) {
